@@ -240,11 +240,16 @@ func (e *Engine) reportFailure(st *State, bad *Term, kind, label string, pos tok
 	base := append([]*Term{}, st.pc...)
 	discharged := true
 	check := func(extra *Term, region string, in bool) {
-		as := append(append([]*Term{}, base...), bad)
+		goal := bad
 		if extra != nil {
-			as = append(as, extra)
+			goal = e.tc.And(bad, extra)
 		}
+		as := append(e.relevant(base, goal), goal)
 		v, m, _ := e.sol.Check(kind+":"+label, as)
+		if v == Sat && len(as) < len(base)+1 {
+			// a complete model is needed for replay: ask again with the whole path condition
+			v, m, _ = e.sol.Check(kind+":"+label+" (full model)", append(append([]*Term{}, base...), goal))
+		}
 		switch v {
 		case Unsat:
 			return
